@@ -85,14 +85,18 @@ def cases(tier, seed):
             if n > 11 and len(plan) == 1 and not plan[0][2] and tier != "thorough" and (plan[0][1] - plan[0][0]) % 3 == 2:
                 continue
             yield {"k": "split", "base": name, "lines": lines, "plan": plan}
+            if name in BIG and len(plan) <= 2 and zlib.crc32(key.encode()) % 4 == 0:
+                # the same cut with the included files in a sub-directory (paths stay relative to the working directory)
+                yield {"k": "split", "base": name, "lines": lines, "plan": plan, "subdir": True}
     for g in ("self", "cycle2", "cycle3", "missing", "missing.nested", "dir"):
         yield {"k": "error", "graph": g}
 
 
-def materialise(lines, plan):
+def materialise(lines, plan, subdir=False):
     """-> (main lines, {filename: lines}) for a plan"""
     files = {}
     counter = [0]
+    prefix = "sub/dir.1/" if subdir else ""
 
     def build(lo, hi, children):
         out = []
@@ -100,7 +104,7 @@ def materialise(lines, plan):
         for (i, j, sub) in children:
             out += lines[pos:i]
             counter[0] += 1
-            fn = "inc{}.asm".format(counter[0])
+            fn = "{}inc{}.asm".format(prefix, counter[0])
             files[fn] = build(i, j, sub)
             out.append("        INCLUDE {}".format(fn))
             pos = j
@@ -143,9 +147,11 @@ def check_case(case):
             res["transitions"] = 2
         else:
             lines = case["lines"]
-            main, files = materialise(lines, case["plan"])
+            main, files = materialise(lines, case["plan"], case.get("subdir", False))
             depth = _depth(case["plan"])
-            cell = "split|{}|files={}|depth={}".format(case["base"].split(":")[0], len(files), depth)
+            cell = "split|{}|files={}|depth={}{}".format(case["base"].split(":")[0], len(files), depth, "|subdir" if case.get("subdir") else "")
+            if case.get("subdir"):
+                os.makedirs("sub/dir.1")
             ref = common.assemble_confirm(lines)
             for fn, content in files.items():
                 open(fn, "w").write("".join(ln + "\n" for ln in content))
